@@ -10,6 +10,7 @@ def reset():
     _uf.clear()
     _slots.clear()
     decode_ranks.clear()
+    _seq_slots.clear()
     return M
 
 
@@ -33,12 +34,26 @@ def slot(name):
 
 
 def data_var(name, bit):
-    rank = 10000 + (bit % 8) * 262144 + slot(name) * 8 + (bit // 8)
+    sl = slot(name if bit < 64 else "%s#%d" % (name, bit // 64))
+    rank = 10000 + (bit % 8) * 262144 + sl * 8 + ((bit % 64) // 8)
     return M.newvar(rank, "%s.%d" % (name, bit))
 
 
 def data_bv(name, width):
     return tuple(data_var(name, i) for i in range(width))
+
+
+_seq_slots = {}
+
+
+def seq_bv(name, width):
+    """variables ordered bit-sequentially (bit i of every such variable at level i): the
+    right order for wide (64-bit) counters that are added and compared"""
+    s = _seq_slots.get(name)
+    if s is None:
+        s = len(_seq_slots)
+        _seq_slots[name] = s
+    return tuple(M.newvar(5000000 + i * 4096 + s, "%s.%d" % (name, i)) for i in range(width))
 
 
 def w0_bv():
